@@ -116,6 +116,9 @@ type Client struct {
 
 	grpcMuxerOnce sync.Once
 	grpcMuxer     *grpcmux.GRPCClientMuxer
+
+	// killLock serializes calls to Kill.
+	killLock sync.Mutex
 }
 
 // NegotiatedVersion returns the protocol version negotiated with the server.
@@ -497,6 +500,13 @@ func (c *Client) killed() bool {
 //
 // This method can safely be called multiple times.
 func (c *Client) Kill() {
+	// Only one Kill runs at a time. A concurrent call used to find the
+	// protocol client already closed, take that for a failed graceful
+	// shutdown and force kill the plugin in the middle of its grace period.
+	// Now it waits for the call in progress and then finds nothing to do.
+	c.killLock.Lock()
+	defer c.killLock.Unlock()
+
 	// Grab a lock to read some private fields.
 	c.l.Lock()
 	runner := c.runner
